@@ -820,7 +820,7 @@ impl ParserListener for Screen {
     }
 
     fn cursor_to_column(&mut self, character: Option<u32>) {
-        self.cursor.x = character.unwrap_or(1) - 1;
+        self.cursor.x = character.filter(|&c| c != 0).unwrap_or(1) - 1;
         self.ensure_hbounds();
     }
 
@@ -1025,7 +1025,7 @@ impl ParserListener for Screen {
     /// # Parameters
     /// - `line`: Line number to move the cursor to.
     fn cursor_to_line(&mut self, line: Option<u32>) {
-        self.cursor.y = line.unwrap_or(1) - 1;
+        self.cursor.y = line.filter(|&l| l != 0).unwrap_or(1) - 1;
 
         // If origin mode (DECOM) is set, line numbers are relative to
         // the top scrolling margin.
